@@ -14,8 +14,8 @@ MinW == 1
 MaxW == 128
 Clamp(x) == IF x <= MinW THEN MinW ELSE IF x >= MaxW THEN MaxW ELSE x
 
-VARIABLES W, k, added, last, c, pastC, sick
-vars == <<W, k, added, last, c, pastC, sick>>
+VARIABLES W, k, added, last, c, pastC, sick, run
+vars == <<W, k, added, last, c, pastC, sick, run>>
 tvars == <<vars, l>>
 
 HostsT == DOMAIN W
@@ -25,7 +25,7 @@ Abs(x) == IF x < 0 THEN -x ELSE x
 LagOK(from, to, i, j) == Abs((to[i] - from[i]) * W[j] - (to[j] - from[j]) * W[i]) <= W[i] + W[j]
 
 Empty == [x \in {} |-> 0]
-TraceInit == l = 1 /\ W = Empty /\ k = Empty /\ added = {} /\ last = "none" /\ c = Empty /\ pastC = {} /\ sick = {}
+TraceInit == l = 1 /\ W = Empty /\ k = Empty /\ added = {} /\ last = "none" /\ c = Empty /\ pastC = {} /\ sick = {} /\ run = 0
 S(seq) == { seq[i] : i \in DOMAIN seq }
 
 TLb == /\ IsEvent("lb")
@@ -33,13 +33,13 @@ TLb == /\ IsEvent("lb")
        /\ k' = [h \in DOMAIN Ev.cw |-> 0]
        /\ c' = [h \in DOMAIN Ev.cw |-> 0]
        /\ added' = {} /\ last' = "none" /\ pastC' = {}
-       /\ UNCHANGED sick
+       /\ UNCHANGED sick /\ run' = 0
 
 TAdd == /\ IsEvent("add")
         /\ Ev.h \in HostsT
         /\ Expect(Ev.w = W[Ev.h], "effective-weight")
         /\ added' = added \cup {Ev.h}
-        /\ UNCHANGED <<W, k, last, c, pastC, sick>>
+        /\ UNCHANGED <<W, k, last, c, pastC, sick, run>>
 
 TPick == /\ IsEvent("pick")
          /\ Ev.h \in added
@@ -47,25 +47,34 @@ TPick == /\ IsEvent("pick")
          /\ Expect(Ev.w = W[Ev.h], "effective-weight")
          /\ k' = [k EXCEPT ![Ev.h] = @ + 1]
          /\ last' = Ev.h
+         /\ run' = run + 1                       \* scheduler picks made for the current ChooseHost call
          /\ UNCHANGED <<W, added, c, pastC, sick>>
 
+Healthy == HostsT \ sick
 TChoose == /\ IsEvent("choose")
            /\ Ev.h \in HostsT
            /\ Expect(Ev.h \notin sick, "unhealthy-host-chosen")
-           /\ IF sick = {}
-              THEN /\ Expect(added = {} \/ Ev.h = last, "choose-is-not-scheduler-pick")
+           /\ IF added = {} \/ last \notin sick
+              THEN \* the answer is the scheduler's pick (unhealthy candidates before it were skipped, which keeps the EDF
+                   \* order among the healthy hosts): the lag bound holds for every pair of healthy hosts
+                   /\ Expect(added = {} \/ Ev.h = last, "choose-is-not-scheduler-pick")
                    /\ LET c2 == [c EXCEPT ![Ev.h] = @ + 1] IN
                         /\ c' = c2
                         /\ pastC' = pastC \cup {c}
-                        /\ Expect(\A p \in pastC \cup {c} : \A i, j \in HostsT : LagOK(p, c2, i, j), "lag-bound")
-              ELSE UNCHANGED <<c, pastC>>          \* while a member is unhealthy only C05's contract applies
-           /\ last' = "none"
+                        /\ Expect(\A p \in pastC \cup {c} : \A i, j \in Healthy : LagOK(p, c2, i, j), "lag-bound")
+              ELSE \* every try hit an unhealthy host: the documented unweighted fallback answers; it may be used only after
+                   \* as many tries as there are hosts, and it leaves the EDF order, so the windows start afresh
+                   /\ Expect(run >= Cardinality(HostsT), "fallback-before-every-host-was-tried")
+                   /\ c' = [h \in HostsT |-> 0] /\ pastC' = {}
+           /\ last' = "none" /\ run' = 0
            /\ UNCHANGED <<W, k, added, sick>>
 
-TSick == IsEvent("sick") /\ sick' = S(Ev.hs) /\ UNCHANGED <<W, k, added, last, c, pastC>>
+TSick == /\ IsEvent("sick") /\ sick' = S(Ev.hs)
+         /\ c' = [h \in HostsT |-> 0] /\ pastC' = {}          \* the set of healthy hosts changed: windows start afresh
+         /\ UNCHANGED <<W, k, added, last, run>>
 TEpoch == /\ IsEvent("epoch") /\ sick' = {}
           /\ c' = [h \in HostsT |-> 0] /\ pastC' = {}
-          /\ UNCHANGED <<W, k, added, last>>
+          /\ UNCHANGED <<W, k, added, last, run>>
 
 TraceNext == TLb \/ TAdd \/ TPick \/ TChoose \/ TSick \/ TEpoch
 TraceSpec == TraceInit /\ [][TraceNext]_tvars
